@@ -3,12 +3,12 @@
 //! The structural halves (Segment / Piecewise keep ends, order and count; pieces equal the per-piece
 //! operation bit for bit) are decided online here.
 
-use crate::c01::{arg_poly, coeff_vec};
-use crate::events::*;
-use crate::flat::*;
-use crate::gen::*;
-use crate::mon::*;
-use crate::probe::*;
+use ppv::polygen::{arg_poly, coeff_vec};
+use ppv::events::*;
+use ppv::flat::*;
+use ppv::gen::*;
+use ppv::mon::*;
+use ppv::probe::*;
 use piecewise_polynomial::*;
 use serde_json::json;
 
@@ -105,7 +105,7 @@ pub fn drive07(a: &Args, m: &mut Mon, sink: &mut Sink) {
                 integ_one!(m, sink, &mut r, $t);
             };
         }
-        crate::for_polys_to7!(per);
+        ppv::for_polys_to7!(per);
     }
 }
 
@@ -236,7 +236,7 @@ pub fn drive08(a: &Args, m: &mut Mon, sink: &mut Sink) {
                 }
             };
         }
-        crate::for_polys!(per);
+        ppv::for_polys!(per);
         // probe pieces
         let nn = match r.below(8) { 0 => 1, _ => r.usize(2, 40) };
         let (ends, _c) = gen_ends_any(&mut r, nn);
